@@ -38,7 +38,7 @@ func mapTests(fn *ir.Func, fld *types.Var) (hit, miss []*cfgx.Edge) {
 			continue
 		}
 		ix, ok := ast.Unparen(as.Rhs[0]).(*ast.IndexExpr)
-		if !ok || lhsField(fn, ix.X) != fld {
+		if !ok || lhsFieldA(fn, ix.X) != fld {
 			continue
 		}
 		okObj := fn.ObjOf(as.Lhs[1])
@@ -107,8 +107,14 @@ func c17r1(c *Ctx) {
 	overlayGets := []*types.Func{memGet, dbget}
 
 	layered := []string{"MemDB", mbT, cbT}
+	// helpers (predicates like "staged" / "deleted", a shared get) expanded into the methods that use them
+	kvv := c.P.Views("chain", ir.ExpandOpt{Key: "kv"})
 	for _, tn := range layered {
-		for _, f := range c.P.MethodsOf("chain", tn) {
+		for _, raw := range c.P.MethodsOf("chain", tn) {
+			if kvv.Absorbed[raw] {
+				continue
+			}
+			f := kvv.Of(raw)
 			isIter := false
 			if f.Type.Results != nil && len(f.Type.Results.List) == 1 {
 				if _, ok := f.Info().TypeOf(f.Type.Results.List[0].Type).Underlying().(*types.Signature); ok {
@@ -137,7 +143,7 @@ func c17r1(c *Ctx) {
 				ir.Walk(n.AST, false, func(x ast.Node) {
 					switch e := x.(type) {
 					case *ast.IndexExpr:
-						if inner, ok := ast.Unparen(e.X).(*ast.IndexExpr); ok && lhsField(f, inner.X) == kv.buckets {
+						if inner, ok := ast.Unparen(e.X).(*ast.IndexExpr); ok && lhsFieldA(f, inner.X) == kv.buckets {
 							sites = append(sites, n)
 							what = append(what, "MemDB.buckets")
 						}
@@ -203,7 +209,7 @@ func c17iter(c *Ctx, f *ir.Func, kv kvFields, bucketIter, memIter *types.Func) {
 			kind := ""
 			x := ast.Unparen(rs.X)
 			if ix, ok := x.(*ast.IndexExpr); ok {
-				switch lhsField(lit, ix.X) {
+				switch lhsFieldA(lit, ix.X) {
 				case kv.buckets:
 					kind = "base"
 				case kv.puts:
@@ -288,7 +294,12 @@ func reachAvoidingEdges(g *cfgx.Graph, start *cfgx.Edge, target, stop *cfgx.Node
 
 func c17r2(c *Ctx) {
 	kv := getKV(c.P)
-	for _, f := range c.P.MethodsOf("chain", "MemDB") {
+	kvv := c.P.Views("chain", ir.ExpandOpt{Key: "kv"})
+	for _, raw := range c.P.PkgFuncs("chain") { // (the stores may be methods of the database or of its bucket type)
+		if raw.Obj.Type().(*types.Signature).Recv() == nil || kvv.Absorbed[raw] {
+			continue
+		}
+		f := kvv.Of(raw)
 		g := f.Graph()
 		for _, pair := range []struct {
 			store, other *types.Var
@@ -302,7 +313,7 @@ func c17r2(c *Ctx) {
 				}
 				for _, w := range f.WritesIn(n.AST, false) {
 					if ix, ok := ast.Unparen(w.LHS).(*ast.IndexExpr); ok {
-						if inner, ok := ast.Unparen(ix.X).(*ast.IndexExpr); ok && f.FieldOf(inner.X) == pair.store {
+						if inner, ok := ast.Unparen(ix.X).(*ast.IndexExpr); ok && lhsFieldA(f, inner.X) == pair.store {
 							stores = append(stores, n)
 						}
 					}
@@ -315,7 +326,7 @@ func c17r2(c *Ctx) {
 			isDel := func(n *cfgx.Node) bool {
 				for _, call := range f.NodeCalls(n) {
 					if id, ok := call.Expr.Fun.(*ast.Ident); ok && len(call.Expr.Args) == 2 {
-						if b, ok := f.Info().Uses[id].(*types.Builtin); ok && b.Name() == "delete" && lhsField(f, call.Expr.Args[0]) == pair.other {
+						if b, ok := f.Info().Uses[id].(*types.Builtin); ok && b.Name() == "delete" && lhsFieldA(f, call.Expr.Args[0]) == pair.other {
 							return true
 						}
 					}
